@@ -121,6 +121,15 @@ def r1_fields(ctx, repo):
                 problems.append("key '%s' is written from a slice/element %s of self.%s: part of the value is lost" % (f, text(sliced[0]), f))
             elif len(base_own - {want}) > 0 and not all(p.startswith(want) for p in base_own):
                 problems.append("key '%s' mixes self.%s with %s" % (f, f, sorted(base_own - {want})))
+            elif f == "custom":
+                # user data of arbitrary nesting: a walker that rebuilds every iterable as the list of its items turns a
+                # dictionary inside it into the list of its keys
+                walker = cls.methods.get("_replace_individual_id")
+                through = [c_ for c_ in ast.walk(w) if isinstance(c_, ast.Call) and (access_path(c_.func) or "").endswith("._replace_individual_id")
+                           and c_.args and any(p_ == want or p_.startswith(want + "[") or p_.startswith(want + ".") for p_ in access_paths_in(c_.args[0]))]
+                if through and walker is not None and _flattens_dicts(walker):
+                    problems.append("key 'custom' is written through %s, which rebuilds every iterable as the list of its items: a dictionary nested in the custom data is stored as "
+                                    "the list of its keys" % text(through[0].func))
         if r is None:
             problems.append("from_dict does not restore attribute '%s'" % f)
         elif r[0] != f:
@@ -330,6 +339,33 @@ def r2_sql(ctx, repo, cls):
     ctx.check(ok, "R4", "SqliteDataStore.sync_all", where(mod, fn), "iterates problem.individuals (every recorded individual is written)", key="sync-all-domain")
     commits = [c for c in calls_in(fn) if isinstance(c.func, ast.Attribute) and c.func.attr == "commit"]
     ctx.check(bool(commits), "R4", "SqliteDataStore.sync_all", where(mod, fn), "commits after writing", key="sync-all-commit")
+
+
+def _flattens_dicts(fn):
+    """the walker has a branch for iterables that returns a list built by iterating its argument, and no earlier branch
+    that takes dictionaries / mappings out"""
+    arg = func_params(fn)[1] if len(func_params(fn)) > 1 else None
+    if arg is None:
+        return False
+    for p in Enumerator(loop_counts=(0, 1)).function_paths(fn):
+        if p.outcome == "raise":
+            continue
+        dict_out = False
+        iter_in = False
+        for e in p.events:
+            if e.kind == "guard":
+                t = text(e.node)
+                if "isinstance(%s" % arg in t and ("dict" in t or "Mapping" in t):
+                    dict_out = dict_out or not e.val or e.val       # the path has looked at dict-ness: not the blind branch
+                elif "isinstance(%s" % arg in t and "Iterable" in t and e.val:
+                    iter_in = True
+            elif e.kind in ("iter",) and iter_in and not dict_out and isinstance(e.node, ast.For) and access_path(e.node.iter) == arg:
+                return True
+            elif e.kind == "return" and iter_in and not dict_out and e.node.value is not None:
+                for c_ in ast.walk(e.node.value):
+                    if isinstance(c_, (ast.ListComp, ast.GeneratorExp)) and any(access_path(g.iter) == arg for g in c_.generators):
+                        return True
+    return False
 
 
 def r3_read(ctx, repo, cls):
